@@ -6,7 +6,7 @@ SEEDS = {
  'C04-1': ('/tmp/wt_C04', 1, 'C04', 'a Sell at a gain carrying a forced (\'!\') superficial-loss value', {'C02': ['force-only-affects-the-discrepancy-check']}, 'seeded against C04, reported by the C02 check after rule R2e (the force marker only switches off the discrepancy check) was added'),
  'C04-2': ('/tmp/wt_C04', 2, 'C04', '--csv-output-dir mode and a security rejected on its first transaction (empty ledger prefix)', {'C04': ['errors-on-every-path']}, 'caught after R4b was strengthened to "errors exported on every non-error path"'),
  'C05-1': ('/tmp/wt_C05', 1, 'C05', 'a superficial loss split between two buying affiliates where one portion is below 1e-10', {'C05': ['c_maybe_round_to_effective_cent', 'T=Pos']}, ''),
- 'C05-2': ('/tmp/wt_C05', 2, 'C05', 'E*TRADE option-exercise text with more Grant headings than rows of some kind', {}, 'slice-index panic in the statement parser: outside the two claimed clauses (R5a constrained decimals, R5b parser results)'),
+ 'C05-2': ('/tmp/wt_C05', 2, 'C05', 'E*TRADE option-exercise text with more Grant headings than rows of some kind', {'C05': ['R5c|peripheral::broker::etrade::parse_eso_data']}, 'caught after rule R5c (index bounded only by another sequence\'s length) was added in the second seeding round'),
  'C07-1': ('/tmp/wt_C07', 1, 'C07', 'three or more input files with same-day rows of one security in different files', {'C07': ['read-index-carried']}, ''),
  'C07-2': ('/tmp/wt_C07', 2, 'C07', 'more than 20 rows of one security, not pre-sorted, with same-day Buy/Sell pairs (two cooperating sites)', {'C07': ['sort-dominates-split']}, ''),
  'C08-1': ('/tmp/wt_C08', 1, 'C08', 'two CSV files; a security with same-day rows in different files; other securities\' rows ahead of it in the later file', {'C07': ['read-index-carried']}, 'seeded against C08, reported by the C07 check (read-index rule R7c)'),
@@ -19,7 +19,7 @@ SEEDS = {
  'C02-2': ('/tmp/wt_C02', 2, 'C02', 'an explicit, un-forced superficial loss of 0 on a sale that is superficial', {'C02': ['specified-loss-always-validated-or-forced']}, 'caught after rule R2d\' (validation or force on every accepting path) was added'),
  'C06-1': ('/tmp/wt_C06', 1, 'C06', 'a security whose yearly gains cancel to a zero lifetime total', {'C06': ['R6d|portfolio::cumulative_gains::calc_cumulative_capital_gains']}, 'caught after rule R6d (no conditional skip in the totals loops) was added'),
  'C06-2': ('/tmp/wt_C06', 2, 'C06', 'default precision, two years whose sub-cent parts cross a half-cent boundary', {'C06': ['R6a']}, ''),
- 'C11-1': ('/tmp/wt_C11', 1, 'C11', 'commission in the trade\'s own non-CAD currency but at a different rate', {}, 'value-level condition inside Tx::to_csvtx; the field-coverage rules still see every field read'),
+ 'C11-1': ('/tmp/wt_C11', 1, 'C11', 'commission in the trade\'s own non-CAD currency but at a different rate', {'C11': ['commission-currency-exported-whenever-present']}, 'caught after rule R11h (commission currency exported whenever present) was added in the second seeding round'),
  'C11-2': ('/tmp/wt_C11', 2, 'C11', 'a specified superficial loss with more than two decimals', {'C11': ['writer-formats-losslessly']}, 'caught after rule R11g (no lossy operation reachable from the CSV writer) was added'),
  'C12-1': ('/tmp/wt_C12', 1, 'C12', 'a year cached in late December, then a run in the next year for a date after the cached range', {'C13': ['cache-accepted']}, 'seeded against C12, reported by the C13 check (cache acceptance rule R13b)'),
  'C12-2': ('/tmp/wt_C12', 2, 'C12', 'a publication gap of more than 7 days with two USD rows inside it, earlier row first', {'C12': ['day-map-insert']}, 'caught after rule R12e (the per-day map only holds loaded data) was added'),
@@ -45,6 +45,27 @@ SEEDS = {
  'C17-2': ('/tmp/wt_C17', 2, 'C17', 'a year whose every day totals $0.00', {'C17': ['anchor-lost:yearly-maximum function']}, 'reported as a lost anchor only (the yearly function was rewritten without the year->day map)'),
  'C19-1': ('/tmp/wt_C19', 1, 'C19', 'any option-exercise confirmation (all sell-to-cover fields pre-filled)', {'C19': ['benefit-with-sold-shares-is-always-matched']}, 'caught after rule R19e (matching skipped only when no shares were sold) was added'),
  'C19-2': ('/tmp/wt_C19', 2, 'C19', 'exactly one Sell in the five-day window with a share count different from the sold shares', {'C19': ['returned-set-comes-from-the-filtered-sets']}, 'caught after rule R19f (returned set comes from the share-count-filtered collection) was added'),
+ # ---- second round (fresh agents, asked to look beyond the most obvious function)
+ 'C01-3': ('/tmp/wt2_C01', 1, 'C01', 'a commission in the trade\'s own non-CAD currency but with its own, different exchange rate', {'C01': ['commission-pair-reaches-ledger-as-validated']}, 'caught after rule R1g (the validated commission pair is moved unchanged) was added'),
+ 'C01-4': ('/tmp/wt2_C01', 2, 'C01', '--symbol-base for a security whose name has a lower-case letter (two cooperating sites)', {'C16': ['symbol-key-unmodified']}, 'seeded against C01, reported by the C16 check (R16c)'),
+ 'C02-3': ('/tmp/wt2_C02', 1, 'C02', 'an un-forced superficial-loss cell of exactly 0 on a sale that is superficial', {'C02': ['specified-loss-always-validated-or-forced']}, ''),
+ 'C02-4': ('/tmp/wt2_C02', 2, 'C02', 'a supplied value on the same cent as the computed loss but more than 0.001 away', {'C06': ['R6a|portfolio::bookkeeping::delta_list::get_delta_superficial_loss_info']}, 'seeded against C02, reported by the C06 check (a rounded value enters arithmetic)'),
+ 'C03-3': ('/tmp/wt2_C03', 1, 'C03', 'two affiliates; the adjustment lands on one holding zero shares, and another affiliate trades before it buys', {'C03': ['empty-status-only-when-no-status-recorded']}, 'caught after rule R3g (empty status only on the None edge of the look-up) was added'),
+ 'C03-4': ('/tmp/wt2_C03', 2, 'C03', 'the window\'s buyers hold nothing at its end while a non-buying affiliate still holds shares', {'C03': ['R3f|@sfl_validation|flag-source']}, ''),
+ 'C04-3': ('/tmp/wt2_C04', 1, 'C04', 'a loss sale declaring 0 (un-forced) with a purchase within 30 days', {'C02': ['specified-loss-always-validated-or-forced']}, 'seeded against C04, reported by the C02 check (R2d\')'),
+ 'C04-4': ('/tmp/wt2_C04', 2, 'C04', 'text mode and a security rejected on its first transaction', {'C04': ['errors-on-every-path']}, ''),
+ 'C05-3': ('/tmp/wt2_C05', 1, 'C05', 'the same symbol in two -b opening-position strings', {'C16': ['R16b|app::input_parse::parse_initial_status']}, 'seeded against C05 (reaches an assert), reported by the C16 check (R16b: an entry is stored as given)'),
+ 'C05-4': ('/tmp/wt2_C05', 2, 'C05', 'option-exercise text where some per-grant row is missing', {'C05': ['R5c|peripheral::broker::etrade::parse_eso_data']}, 'same change as C05-2, produced independently; caught after rule R5c (index bounded only by another sequence\'s length) was added'),
+ 'C06-3': ('/tmp/wt2_C06', 1, 'C06', 'a signed figure exactly on a half cent with an even cent digit', {'C06': ['R6a|portfolio::render::PrintHelper::plus_minus_opt_dollar']}, ''),
+ 'C06-4': ('/tmp/wt2_C06', 2, 'C06', 'a security that realises gains and later fails', {'C04': ['R4c|app::approot::get_cumulative_capital_gains']}, 'seeded against C06, reported by the C04 check (R4c: a failed security contributes no gains)'),
+ 'C07-3': ('/tmp/wt2_C07', 1, 'C07', 'two files given in non-lexicographic order with same-day rows of one security in both', {'C07': ['files-read-in-the-order-given']}, 'caught after rule R7e (no re-ordering between the argument list and the reader list) was added'),
+ 'C07-4': ('/tmp/wt2_C07', 2, 'C07', 'more than 20 rows of one security, unsorted input, same-day Buy/Sell', {'C07': ['sort-dominates-split']}, ''),
+ 'C08-3': ('/tmp/wt2_C08', 1, 'C08', 'more than 20 rows in total and same-day rows of one security', {'C07': ['sort-dominates-split']}, 'seeded against C08, reported by the C07 check (R7b)'),
+ 'C08-4': ('/tmp/wt2_C08', 2, 'C08', 'a failing security visited before a healthy one in hash order', {'C09': ['get_cumulative_capital_gains|consume|map_while']}, 'seeded against C08, reported by the C09 check (order-selecting adaptor on a hash-ordered iterator; that clause was added shortly before this seed was evaluated)'),
+ 'C09-3': ('/tmp/wt2_C09', 1, 'C09', '--total-costs, three securities with long-fraction cost bases', {'C09': ['observe_new_cost|consume|fold'], 'C17': ['row-total-kept-equal-to-the-sum']}, ''),
+ 'C09-4': ('/tmp/wt2_C09', 2, 'C09', 'a header that repeats a recognised column name', {'C09': ['parse_tx_csv|consume|next'], 'C07': ['anchor-lost:column-index-map']}, ''),
+ 'C10-3': ('/tmp/wt2_C10', 1, 'C10', 'a USD trade with a CAD commission copied verbatim into the summary', {'C11': ['commission-currency-exported-whenever-present']}, 'seeded against C10, reported by the C11 check after rule R11h was added (also catches C11-1)'),
+ 'C10-4': ('/tmp/wt2_C10', 2, 'C10', '--summarize-annual-gains and a sale traded in December, settled in January', {'C06': ['R6c|portfolio::summary::make_annual_gains_summary_txs']}, 'seeded against C10, reported by the C06 check (R6c: yearly figures keyed by the settlement year)'),
 }
 VERIF = os.path.dirname(os.path.dirname(os.path.abspath(__file__)))
 def main(ids):
